@@ -93,6 +93,7 @@ func cmdAsyncLoad(f hx.Flags, r *hx.Result) {
 	policies := []log.BufferFullPolicy{log.BufferFullPolicyBlock, log.BufferFullPolicyDiscard, log.BufferFullPolicyDiscardOldest}
 	polName := []string{"Block", "Discard", "DiscardOldest"}
 	modes := []string{"fast", "slow", "bursty"}
+	parkedProducers(r)
 	for run := 0; run < runs && !hx.Stopped(); run++ {
 		pi := run % 3
 		mode := modes[(run/3)%3]
@@ -196,6 +197,69 @@ func cmdAsyncLoad(f hx.Flags, r *hx.Result) {
 		if run == 4 {
 			r.Sample(map[string]any{"run": desc, "delivered": len(rec.Delivered), "discards": rec.Discards, "stop_ms": rec.StopMs})
 		}
+	}
+}
+
+// parkedProducers: the worker is parked in a gated appender and never released while 8 producers
+// hammer a full buffer: under the two discard policies every call must return without the appender.
+func parkedProducers(r *hx.Result) {
+	for _, pol := range []log.BufferFullPolicy{log.BufferFullPolicyDiscard, log.BufferFullPolicyDiscardOldest} {
+		name := map[log.BufferFullPolicy]string{log.BufferFullPolicyDiscard: "Discard", log.BufferFullPolicyDiscardOldest: "DiscardOldest"}[pol]
+		gate := &sys.RecAppender{Gate: make(chan struct{}), Entered: make(chan int64, 1<<16)}
+		lg := &log.AsyncLogger{
+			LoggerBase: log.LoggerBase{Level: log.LevelRange{MinLevel: log.InfoLevel, MaxLevel: log.MaxLevel}},
+			AppenderRefs: log.AppenderRefs{AppenderRefs: []*log.AppenderRef{{Appender: gate,
+				Level: log.LevelRange{MinLevel: log.InfoLevel, MaxLevel: log.MaxLevel}}}},
+			BufferSize: 100, BufferFullPolicy: pol,
+		}
+		if err := lg.Start(); err != nil {
+			r.SetInfra("start: %v", err)
+			return
+		}
+		desc := map[string]any{"policy": name, "producers": 8, "worker": "parked for the whole phase"}
+		var wg sync.WaitGroup
+		submitted := int64(0)
+		for p := 0; p < 8; p++ {
+			wg.Add(1)
+			go func(p int) {
+				defer wg.Done()
+				for k := 1; k <= 400; k++ {
+					id := int64(p+1)*1000000 + int64(k)
+					if k%3 == 0 {
+						lg.Write([]byte(fmt.Sprintf("RAW id=%d payload\n", id)))
+					} else {
+						e := log.GetEvent()
+						e.Level, e.Time, e.Tag = log.InfoLevel, time.Now(), "load"
+						e.Fields = []log.Field{log.Int("id", id)}
+						lg.Append(e)
+					}
+					atomic.AddInt64(&submitted, 1)
+				}
+			}(p)
+		}
+		done := make(chan struct{})
+		go func() { wg.Wait(); close(done) }()
+		blocked := false
+		select {
+		case <-done:
+		case <-time.After(8 * time.Second):
+			blocked = true
+			r.Violate("producers-blocked:"+name, desc, "with the worker parked, producers under %s did not all return within 8 s (%d of 3200 calls returned)", name, atomic.LoadInt64(&submitted))
+		}
+		close(gate.Gate) // open for good
+		if blocked {
+			<-done
+		}
+		if ret, pv := hx.Within(15*time.Second, func() { lg.Stop() }); !ret || pv != nil {
+			r.Violate("stop-failed", desc, "Stop returned=%v panic=%v", ret, pv)
+			continue
+		}
+		got := int64(gate.Len())
+		if got+lg.GetDiscardCounter() != 3200 {
+			r.Violate("conservation:"+name, desc, "delivered %d + discarded %d != submitted 3200", got, lg.GetDiscardCounter())
+		}
+		r.Eval(3200)
+		r.NonTrivial(1)
 	}
 }
 
